@@ -138,7 +138,9 @@ def script_with_tables(ctx, prop, rng, root, n, ilog_only=False):
         if got and got[-1] == "":
             got.pop()
         want = im.dump_ref(d, mt, ms)        # (ILOG-only dumps have no trace region: the string file does not matter)
-        ok = p.returncode == 0 and got in want
+        # compared as TEXT, not line by line: a %c argument may be a line feed, which is one line of the decode and two of the
+        # printed text
+        ok = p.returncode == 0 and any("\n".join(got) == "\n".join(w) for w in want)
         if not ok:
             ctx.violation("%s/script-own-tables/%s" % (prop, style), "python -m io_drawer.dump %s (run in the directory that holds these "
                           "files) rc=%d printed %d lines that differ from the decode with the given table; stderr=%r first lines %r" %
@@ -279,6 +281,6 @@ def run(spec, ctx):
         got = p.stdout.decode("utf-8", "replace").split("\n")
         if got and got[-1] == "":
             got.pop()
-        if p.returncode != 0 or got != list(want):
+        if p.returncode != 0 or "\n".join(got) != "\n".join(want):      # as text: a %c argument may be a line feed
             ctx.violation("C17/script", "python -m io_drawer.dump rc=%d printed %d lines, the decoders give %d; stderr=%r" %
                           (p.returncode, len(got), len(want), p.stderr[-300:]), data=d[:800])
